@@ -1256,6 +1256,10 @@ func c16FailurePaths(ev *vlib.Evidence) {
 	// (c) allow-lists that are as long as (or longer than) the receiver's method set, with stale,
 	// duplicate or wrongly-cased entries: still exactly the listed names that exist
 	for _, allow := range [][]string{
+		{"nope"},
+		{"disconnect", "numRemotes"},
+		{""},
+		{"Alpha"},
 		{"alpha", "beta", "gamma", "delta", "nope"},
 		{"alpha", "alpha", "beta", "gamma", "delta"},
 		{"alpha", "beta", "gamma", "delta", "HelperReset"},
@@ -1285,6 +1289,70 @@ func c16FailurePaths(ev *vlib.Evidence) {
 		}
 		if toy.count("HelperReset") > 0 {
 			ev.Violate("helper-method-ran:allow-list-as-long-as-method-set", map[string]interface{}{"allow_list": allow})
+		}
+	}
+	// (d) a wrongly typed member inside an object or list parameter is a wrongly typed parameter
+	{
+		toy := &ToyService{}
+		s4 := &jsonrpc2.Server{}
+		if err := s4.Register("in_", toy, "alpha", "delta"); err != nil {
+			panic(err)
+		}
+		hs4 := &jsonrpc2.HTTPServer{}
+		hs4.Server.Register("in_", toy, "alpha", "delta")
+		ln4, err := net.Listen("tcp", "127.0.0.1:0")
+		if err != nil {
+			panic(err)
+		}
+		srv4 := &http.Server{Handler: hs4}
+		go srv4.Serve(ln4)
+		defer srv4.Close()
+		st, cleanup, serr := vlib.OpenStore(vlib.DriverMemory)
+		if serr != nil {
+			panic(serr)
+		}
+		defer cleanup()
+		ps := &jsonrpc2.Server{}
+		ps.Register("vipnode_", pool.New(st, nil), "connect", "disconnect", "ping", "update", "peer", "client", "host")
+		id := vlib.NewIdentity("c16inner", 0)
+		for _, pr := range []struct{ target, method, params, ran string }{
+			{"toy", "in_alpha", `["x",7,{"a":"s","b":"notanint"}]`, "Alpha"},
+			{"toy", "in_alpha", `["x",7,{"a":5,"b":2}]`, "Alpha"},
+			{"toy", "in_alpha", `["x",7,{"a":"s","b":2.5}]`, "Alpha"},
+			{"toy", "in_alpha", `["x",7,{"a":["s"],"b":2}]`, "Alpha"},
+			{"toy", "in_delta", `[{"a":"s","b":true},["x"]]`, "Delta"},
+			{"toy", "in_delta", `[{"a":"s","b":2},[1]]`, "Delta"},
+			{"toy", "in_delta", `[{"a":"s","b":2},["x",{"y":1}]]`, "Delta"},
+			{"pool", "vipnode_update", fmt.Sprintf(`["sig",%q,1,{"block_number":"7"}]`, id.NodeID), ""},
+			{"pool", "vipnode_update", fmt.Sprintf(`["sig",%q,1,{"peers":[1,2]}]`, id.NodeID), ""},
+			{"pool", "vipnode_update", fmt.Sprintf(`["sig",%q,1,{"peers_info":[{"id":5}]}]`, id.NodeID), ""},
+			{"pool", "vipnode_connect", fmt.Sprintf(`["sig",%q,1,{"payout":7}]`, id.NodeID), ""},
+			{"pool", "vipnode_connect", fmt.Sprintf(`["sig",%q,1,{"node_info":{"network":"one"}}]`, id.NodeID), ""},
+			{"pool", "vipnode_connect", fmt.Sprintf(`["sig",%q,1,{"node_uri":["enode://x"]}]`, id.NodeID), ""},
+			{"pool", "vipnode_peer", fmt.Sprintf(`["sig",%q,1,{"num":"3"}]`, id.NodeID), ""},
+			{"pool", "vipnode_host", fmt.Sprintf(`["sig",%q,1,{"kind":{"x":1}}]`, id.NodeID), ""},
+		} {
+			callers := map[string]rawCaller{"handle": serverRawCaller(s4)}
+			if pr.target == "pool" {
+				callers = map[string]rawCaller{"handle": serverRawCaller(ps)}
+			} else {
+				callers["http"] = httpRawCaller("http://" + ln4.Addr().String() + "/")
+			}
+			for tname, call := range callers {
+				var before int64
+				if pr.ran != "" {
+					before = toy.count(pr.ran)
+				}
+				code, msg := call(pr.method, pr.params)
+				ev.Case(fmt.Sprintf("inner-type/%s/%s/%s/%s", pr.target, tname, pr.method, pr.params), true)
+				ev.Count("arity-probes:wrongly-typed-member", 1)
+				detail := map[string]interface{}{"target": pr.target, "transport": tname, "method": pr.method, "params": pr.params, "code": code, "err": msg}
+				if pr.ran != "" && toy.count(pr.ran) != before {
+					ev.Violate("method-ran-with-invalid-params:"+pr.target+":"+pr.method+":wrongly-typed-member", detail)
+				} else if code != jsonrpc2.ErrCodeInvalidParams {
+					ev.Violate(fmt.Sprintf("wrong-error-code:%s:%s:wrongly-typed-member:code=%d", pr.target, pr.method, code), detail)
+				}
+			}
 		}
 	}
 	// (b) failed registrations
